@@ -23,6 +23,9 @@ type C05Case struct {
 	LastTok   string `json:"last_tok,omitempty"` // spelling of the LAST token ("" = LAST); RFC 3030: case-insensitive
 	// WithErr: the connection returns its last octets TOGETHER with io.EOF (one Read with n > 0 and an error)
 	WithErr bool `json:"with_err,omitempty"`
+	// Helo: the client greets with HELO (mode smtp): BDAT is framed by its octet count all the same - accepted or
+	// refused, the chunk is never executed
+	Helo bool `json:"helo,omitempty"`
 }
 
 // payload of the second message of the "ok" conversations
@@ -47,7 +50,11 @@ func c05Build(c C05Case) (parts []part, cfg h.Config, be *h.Backend, want []stri
 		}
 	}
 	want = []string{"220"}
-	cmd(strings.TrimSuffix(hello(c.Mode), "\r\n"))
+	if c.Helo {
+		cmd("HELO c.example")
+	} else {
+		cmd(strings.TrimSuffix(hello(c.Mode), "\r\n"))
+	}
 	want = append(want, "250")
 	switch c.State {
 	case "ok":
@@ -215,6 +222,29 @@ func c05Build(c C05Case) (parts []part, cfg h.Config, be *h.Backend, want []stri
 		cmd(c.BadCmd)
 		cmd("NOOP")
 		want = append(want, "5xx", "250")
+	case "malformed-later", "malformed-later-noenv":
+		// the same malformed line BEHIND a delivered chunked message (whose declared sizes are history), inside a new
+		// envelope or without one: one 5xx, and the NOOPs behind it are the next commands - no octet is skipped
+		cmd("MAIL FROM:<ok@a0.example>")
+		cmd("RCPT TO:<ok@b0.example>")
+		g++
+		cmd("BDAT 7")
+		pay([]byte("earlier"))
+		cmd("BDAT 5 LAST")
+		pay([]byte(" one\n"))
+		want = append(want, "250", "250", "250", "250")
+		g++
+		if c.State == "malformed-later" {
+			cmd("MAIL FROM:<ok@a.example>")
+			cmd("RCPT TO:<ok@b.example>")
+			want = append(want, "250", "250")
+			g++
+		}
+		cmd(c.BadCmd)
+		cmd("NOOP")
+		cmd("NOOP")
+		cmd("NOOP")
+		want = append(want, "5xx", "250", "250", "250")
 	}
 	return
 }
@@ -400,10 +430,10 @@ func evalC05(c C05Case) *h.Finding {
 			return h.F("c05-replies", "%s: the chunk was answered %s but delivered=%t", desc, o.Codes(), delivered)
 		}
 	} else if !(c.State == "overlimit" && len(c.Msg) < 2) && !(c.State == "overlimit2" && len(c.Msg) == 0) { // without a configurable limit below its size the chunk is accepted
-		first := c.State == "nomail2" || c.State == "norcpt2" // these begin with a delivered message "zz"
+		first := c.State == "nomail2" || c.State == "norcpt2" || strings.HasPrefix(c.State, "malformed-later") // these begin with a delivered message
 		for _, e := range o.Trace {
 			if (e.Kind == "Data" || e.Kind == "LMTPData") && e.ReadErr == "EOF" {
-				if first && string(e.Body) == "zz" {
+				if first && (string(e.Body) == "zz" || string(e.Body) == "earlier one\n") {
 					first = false
 					continue
 				}
@@ -430,7 +460,7 @@ func C05(tier string) int {
 		bytes.Repeat([]byte("a"), lim-1), bytes.Repeat([]byte("b"), lim+1), bytes.Repeat([]byte("c"), 3*lim),
 		append(bytes.Repeat([]byte{0xfe}, lim+1), '\n'), append([]byte("\n"), bytes.Repeat([]byte("d"), lim+1)...),
 	}
-	run.Rule = fmt.Sprintf("messages = all strings of <=%d octets over {CR,LF,'.',NUL,0xFF,'a'} plus %d fixed payloads (CRLF.CRLF, command look-alikes, LF-free runs of line-limit-1, +1, x3 with the line limit set to %d) x every division into <=%d chunks (empty chunks, LAST on empty or non-empty) x segmentation {command/payload in separate segments, pipelined group per segment, everything in one segment, one octet per segment} x {SMTP, LMTP, LMTP per-recipient}; refused BDAT (no MAIL, all RCPT rejected - each also as the second transaction behind a delivered one -, bad LAST token, over the size limit on the first and on a later chunk) (each followed by a further chunk that would fit: refused as well) and a backend that fails without reading the chunk (two recipients: one reply per BDAT, one per recipient only for LMTP LAST) x payloads (all strings <=%d + fixed) x segmentations; malformed BDAT lines; chunk sizes with leading zeros; chunks of 5000..150000 octets (beyond every internal buffer); BDAT lines with TAB / several spaces between the arguments and a bait chunk (taken or refused, never executed). Every accepted short conversation also with the last octets and io.EOF delivered by ONE Read (n > 0 together with an error, as crypto/tls does for a waiting close_notify). Distinct by construction; non-trivial = payload contains CR, LF, '.', NUL, 0xFF or is longer than the line limit, or the command is refused. every accepted conversation continues with a second two-chunk message (in the 'pipelined group' segmentation under a size limit that each message fits but not both together). Oracle: one Data call per message whose reader yields the concatenation then EOF; exactly the expected reply per command; markers executed once; no payload octet executed.", maxLen, len(fixed), lim, maxParts, refLen)
+	run.Rule = fmt.Sprintf("messages = all strings of <=%d octets over {CR,LF,'.',NUL,0xFF,'a'} plus %d fixed payloads (CRLF.CRLF, command look-alikes, LF-free runs of line-limit-1, +1, x3 with the line limit set to %d) x every division into <=%d chunks (empty chunks, LAST on empty or non-empty) x segmentation {command/payload in separate segments, pipelined group per segment, everything in one segment, one octet per segment} x {SMTP, LMTP, LMTP per-recipient}; refused BDAT (no MAIL, all RCPT rejected - each also as the second transaction behind a delivered one -, bad LAST token, over the size limit on the first and on a later chunk) (each followed by a further chunk that would fit: refused as well) and a backend that fails without reading the chunk (two recipients: one reply per BDAT, one per recipient only for LMTP LAST) x payloads (all strings <=%d + fixed) x segmentations; malformed BDAT lines (also behind a delivered chunked message, with and without a new envelope: no octet is skipped for a line whose size does not parse); chunk sizes with leading zeros; chunks of 5000..150000 octets (beyond every internal buffer); BDAT lines with TAB / several spaces between the arguments, and BDAT from a client that greeted with HELO, with a bait chunk (taken or refused, never executed). Every accepted short conversation also with the last octets and io.EOF delivered by ONE Read (n > 0 together with an error, as crypto/tls does for a waiting close_notify). Distinct by construction; non-trivial = payload contains CR, LF, '.', NUL, 0xFF or is longer than the line limit, or the command is refused. every accepted conversation continues with a second two-chunk message (in the 'pipelined group' segmentation under a size limit that each message fits but not both together). Oracle: one Data call per message whose reader yields the concatenation then EOF; exactly the expected reply per command; markers executed once; no payload octet executed.", maxLen, len(fixed), lim, maxParts, refLen)
 	run.Assumptions = []string{"payload octet classes {CR, LF, '.', NUL, 0xFF, other}", "known finding linelimit-counts-bdat-payload (DESIGN.md D6) is matched by signature AND by an independent simulation of the limiter's sub-space; any other mismatch is a violation"}
 	var cases []C05Case
 	modes := []string{"smtp", "lmtp", "lmtp-rcpt"}
@@ -521,10 +551,18 @@ func C05(tier string) int {
 			}
 		}
 	}
+	// a client that greeted with HELO: whether the server takes the chunk or refuses the command, the chunk is framed by
+	// its octet count and never executed
+	for _, seg := range segsAll {
+		for _, bait := range []string{"MAIL FROM:<bait@x>\r\n", "QUIT\r\n", "RSET\r\nNOOP\r\n"} {
+			cases = append(cases, C05Case{Mode: "smtp", State: "odd-separator", Msg: []byte(bait), BadCmd: fmt.Sprintf("BDAT %d LAST", len(bait)), Seg: seg, Helo: true})
+		}
+	}
 	for _, bad := range []string{"BDAT", "BDAT x", "BDAT -1", "BDAT 1 LAST X", "BDAT 99999999999", "BDAT 1.5", "BDAT LAST", "BDAT  "} {
 		for _, mode := range modes {
 			for _, seg := range []string{"one", "octet"} {
 				cases = append(cases, C05Case{Mode: mode, State: "malformed", BadCmd: bad, Seg: seg})
+				cases = append(cases, C05Case{Mode: mode, State: "malformed-later", BadCmd: bad, Seg: seg}, C05Case{Mode: mode, State: "malformed-later-noenv", BadCmd: bad, Seg: seg})
 			}
 		}
 	}
